@@ -52,7 +52,7 @@ PROPS = {
             "technique": "Lean 4 proof: isLong iff period*86400e6 <= instant difference; regenerated country table; correspondence on threshold pairs",
             "text": "Theorems long_iff, income_short, never_long on the model's Fraction.isLong; Gen.Countries periods decided; pipeline stream with threshold-seeking generator.",
             "design_ref": "DESIGN.md §3 C05"},
-    "C06": {"streams": [S("pipeline", 1200, 60000, ["yearly", "status-crash"])], "rule": PIPE_RULE,
+    "C06": {"streams": [S("pipeline", 1200, 60000, ["yearly", "status-crash"]), S("reports", 30, 1500, ["taxsheet", "summary", "status"])], "rule": PIPE_RULE + "; reports stream for C06: the Gain / Loss Summary table and the Summary sheet of the real rp2_full_report.ods",
             "assumptions": ["hypothesis LocalDatesMonotone (finding F6): local calendar dates never decrease along the instant order"],
             "technique": "Lean 4 proof: insertion-ordered group-by yields one line per key, each the in-order sum of exactly its fractions; correspondence of yearly lines",
             "text": "Theorem lines_are_sums (group_spec); yearly lines of the real ComputedData compared with the model and with an independent group-by oracle.",
